@@ -164,3 +164,103 @@ theorem decode_encode_bitlist (lim : Nat) (bs : List Bool) (h : bs.length ≤ li
   rw [this, natToBits_bitsToNat]
 
 end Zrnt.Proofs.SSZ
+
+namespace Zrnt.Proofs.SSZ
+open Zrnt.SSZ
+
+theorem encodeFields_length_eq : ∀ (fs : Fields) (vs : List Val), WFFields fs vs → (encodeFields fs vs).length = vs.length
+  | .nil, vs, hw => by cases vs <;> simp_all [WFFields, encodeFields]
+  | .cons _ t r, vs, hw => by
+    cases vs with
+    | nil => simp [WFFields] at hw
+    | cons v vs =>
+      simp only [WFFields] at hw
+      simp [encodeFields, encodeFields_length_eq r vs hw.2]
+
+mutual
+theorem decode_encode_aux : ∀ (t : Ty) (v : Val), t.Legal → WF t v → (encode t v).length < 2 ^ 32 →
+    decode t (encode t v) = some v
+  | .uint k, v, _, hw, _ => by
+    cases v <;> simp only [WF] at hw
+    rename_i n
+    rw [← pow_256] at hw
+    simp [encode, decode, natToLE_length, leToNat_natToLE _ _ hw]
+  | .bool, v, _hl, hw, _hlen => by
+    cases v <;> simp only [WF] at hw
+    case bool b => cases b <;> simp [encode, decode]
+  | .bytesN m, v, _, hw, _ => by
+    cases v <;> simp only [WF] at hw
+    simp [encode, decode, hw]
+  | .vector t m, v, hl, hw, hlen => by
+    cases v <;> simp only [WF] at hw
+    rename_i vs
+    simp only [Ty.Legal] at hl
+    simp only [encode] at hlen ⊢
+    have hc : Compat (List.replicate vs.length t.fixedLen?) (vs.map (encode t)) := by
+      have := compat_replicate t.fixedLen? (vs.map (encode t)) (by
+        intro s hs p hp
+        obtain ⟨v, hv, rfl⟩ := List.mem_map.mp hp
+        exact encode_fixed t v s hs (hw.2 v hv))
+      simpa using this
+    simp only [decode]
+    rw [← hw.1, splitParts_joinParts _ _ hc hlen]
+    simp only
+    rw [mapOpt_map_of_forall vs (fun v hv => decode_encode_aux t v hl.2 (hw.2 v hv)
+      (Nat.lt_of_le_of_lt (part_length_le _ _ hc _ (List.mem_map_of_mem hv)) hlen))]
+    rfl
+  | .list t lim, v, hl, hw, hlen => by
+    cases v <;> simp only [WF] at hw
+    rename_i vs
+    simp only [Ty.Legal] at hl
+    simp only [encode] at hlen ⊢
+    have hc : Compat (List.replicate vs.length t.fixedLen?) (vs.map (encode t)) := by
+      have := compat_replicate t.fixedLen? (vs.map (encode t)) (by
+        intro s hs p hp
+        obtain ⟨v, hv, rfl⟩ := List.mem_map.mp hp
+        exact encode_fixed t v s hs (hw.2 v hv))
+      simpa using this
+    have hsl := splitList_joinParts t.fixedLen? lim (vs.map (encode t)) (by simpa using hc) (by simpa using hw.1)
+      (fun s hs => legal_fixed_pos t s hl hs) (by simpa using hlen)
+    simp only [List.length_map] at hsl
+    simp only [decode]
+    rw [hsl]
+    simp only
+    rw [mapOpt_map_of_forall vs (fun v hv => decode_encode_aux t v hl (hw.2 v hv)
+      (Nat.lt_of_le_of_lt (part_length_le _ _ hc _ (List.mem_map_of_mem hv)) hlen))]
+    rfl
+  | .bitvector m, v, _, hw, _ => by
+    cases v <;> simp only [WF] at hw
+    exact decode_encode_bitvector m _ hw
+  | .bitlist lim, v, _, hw, _ => by
+    cases v <;> simp only [WF] at hw
+    exact decode_encode_bitlist lim _ hw
+  | .byteList lim, v, _, hw, _ => by
+    cases v <;> simp only [WF] at hw
+    simp [encode, decode, hw]
+  | .container fs, v, hl, hw, hlen => by
+    cases v <;> simp only [WF] at hw
+    rename_i vs
+    simp only [Ty.Legal] at hl
+    simp only [encode] at hlen ⊢
+    have hc := encodeFields_compat fs vs hw
+    simp only [decode]
+    rw [splitParts_joinParts _ _ hc hlen]
+    simp only
+    rw [decodeFields_encodeFields fs vs hl.2 hw (fun p hp =>
+      Nat.lt_of_le_of_lt (part_length_le _ _ hc p hp) hlen)]
+    rfl
+theorem decodeFields_encodeFields : ∀ (fs : Fields) (vs : List Val), fs.Legal → WFFields fs vs →
+    (∀ p ∈ encodeFields fs vs, p.length < 2 ^ 32) → decodeFields fs (encodeFields fs vs) = some vs
+  | .nil, vs, _, hw, _ => by cases vs <;> simp_all [WFFields, encodeFields, decodeFields]
+  | .cons _ t r, vs, hl, hw, hlen => by
+    cases vs with
+    | nil => simp [WFFields] at hw
+    | cons v vs =>
+      simp only [WFFields] at hw
+      simp only [Fields.Legal] at hl
+      simp only [encodeFields, decodeFields]
+      rw [decode_encode_aux t v hl.1 hw.1 (hlen _ (by simp [encodeFields])),
+        decodeFields_encodeFields r vs hl.2 hw.2 (fun p hp => hlen p (by simp [encodeFields, hp]))]
+end
+
+end Zrnt.Proofs.SSZ
